@@ -234,7 +234,7 @@ EXTRA_PROPERTY_FILES = {
     "C14": ["Refine"],
     "C16": ["RefMod"],
     "C18": ["RefSched"],
-    "C20": ["C20float"],
+    "C20": ["C20float", "C20float2"],
 }
 
 def property_targets(pid):
